@@ -27,8 +27,8 @@ Import ListNotations.
 Open Scope Z_scope.
 
 (* the state only moves opened -> halfClosed -> closed, opened -> localHalfClosed -> closed, or opened -> closed *)
-Theorem C10_monotone : forall cb0 inb nc scr ups sy sched sched',
-  let s := run sched (init_sy cb0 inb nc scr ups sy) in let s' := run sched' s in
+Theorem C10_monotone : forall cb0 inb nc scr ups sy nds pks sched sched',
+  let s := run sched (init_rd cb0 inb nc scr ups sy nds pks) in let s' := run sched' s in
   (st s = c_streamOpened \/ st s = c_streamHalfClosed \/ st s = v_streamLocalHalfClosed \/ st s = c_streamClosed) /\
   (st s = c_streamClosed -> st s' = c_streamClosed) /\
   (st s = c_streamHalfClosed -> st s' = c_streamHalfClosed \/ st s' = c_streamClosed) /\
@@ -39,8 +39,8 @@ Print Assumptions C10_monotone.
 (* never more than one close report per end (nlocal / nremote count the OnLocalClose / OnRemoteClose call
    sites; the callbacks themselves are invoked there iff callbacks are installed); none while open; a
    close element is sent only after the OnLocalClose site *)
-Theorem C10_callbacks_at_most_once : forall cb0 inb nc scr ups sy sched,
-  let s := run sched (init_sy cb0 inb nc scr ups sy) in
+Theorem C10_callbacks_at_most_once : forall cb0 inb nc scr ups sy nds pks sched,
+  let s := run sched (init_rd cb0 inb nc scr ups sy nds pks) in
   0 <= nlocal s /\ 0 <= nremote s /\ nlocal s + nremote s <= 1 /\
   (st s = c_streamOpened -> nlocal s + nremote s = 0) /\ ncl (out s) <= nlocal s.
 Proof. exact callbacks_at_most_once. Qed.
@@ -48,8 +48,8 @@ Print Assumptions C10_callbacks_at_most_once.
 
 (* once a Close() call of another goroutine has returned the state is no longer opened: Flush (hence Write)
    returns ErrStreamClosed and a read never blocks again (buffered data, then ErrEndOfStream) *)
-Theorem C10_final_flush : forall cb0 inb nc scr ups sy sched i,
-  let s := run sched (init_sy cb0 inb nc scr ups sy) in
+Theorem C10_final_flush : forall cb0 inb nc scr ups sy nds pks sched i,
+  let s := run sched (init_rd cb0 inb nc scr ups sy nds pks) in
   nth_error (clos s) i = Some KRet ->
   st s <> c_streamOpened /\ flush_res s = RErrStreamClosed /\ read_res s <> RBlocked.
 Proof. exact final_flush. Qed.
@@ -58,13 +58,36 @@ Print Assumptions C10_final_flush.
 (* readers blocked in readMore are woken: once the state has left `opened` (by the peer's notification, by
    close(), or by the local half-close of a Close() issued while a callback runs — that one since 24acf5f)
    closeNotifyCh is closed as soon as no thread stands between its state transition and its report *)
-Theorem C10_wake : forall cb0 inb nc scr ups sy sched,
-  let s := run sched (init_sy cb0 inb nc scr ups sy) in
+Theorem C10_wake : forall cb0 inb nc scr ups sy nds pks sched,
+  let s := run sched (init_rd cb0 inb nc scr ups sy nds pks) in
   st s <> c_streamOpened ->
   epc s <> EHalfN -> cz c_pendcb (clos s) = 0 -> cz (gl c_pendcb) (gors s) = 0 ->
   cnotify s = true.
 Proof. exact wake. Qed.
 Print Assumptions C10_wake.
+
+(* operations that are already PENDING when the close happens.  An OnData invocation parked in a blocking read
+   (readMore's select; model GRdPark): (i) a close() that waits for the callback goroutine has closed closeNotifyCh before
+   its Wait, so it never waits for a reader that only this close could wake; (ii) whenever C10_wake applies, the parked
+   invocation's next step leaves the select (its read returns the buffered bytes or fails with the closed-stream error).
+   For a synchronous reader / a Flush in its queue-full retry loop the same closeNotifyCh is what they select on:
+   C10_wake is the statement, and the harness compares closeNotifyCh with the model's `cnotify` at the end of every
+   controlled run and runs real readers parked across a Close (props/C10.py). *)
+Theorem C10_close_wakes_parked : forall cb0 inb nc scr ups sy nds pks sched i old,
+  let s := run sched (init_rd cb0 inb nc scr ups sy nds pks) in
+  (nth_error (clos s) i = Some (CWait old) \/ (exists j more, nth_error (gors s) j = Some (GCbClose (CWait old) more)) \/
+   (exists j, nth_error (gors s) j = Some (GClose (CWait old)))) ->
+  isloc old = true -> cnotify s = true.
+Proof. exact close_wakes_parked. Qed.
+Print Assumptions C10_close_wakes_parked.
+
+Theorem C10_parked_woken_by_close : forall cb0 inb nc scr ups sy nds pks sched i nd cl,
+  let s := run sched (init_rd cb0 inb nc scr ups sy nds pks) in
+  nth_error (gors s) i = Some (GRdPark nd cl) ->
+  st s <> c_streamOpened -> epc s <> EHalfN -> cz c_pendcb (clos s) = 0 -> cz (gl c_pendcb) (gors s) = 0 ->
+  nth_error (gors (step s (WGor i))) i <> Some (GRdPark nd cl).
+Proof. exact parked_woken_by_close. Qed.
+Print Assumptions C10_parked_woken_by_close.
 
 (* finality of the user operations.  Flush (hence Write = WriteBytes + Flush) is a thread of the model: it
    loads the state and, exactly as stream.go's `if state != uint32(streamOpened)`, fails with ErrStreamClosed and
@@ -74,8 +97,8 @@ Print Assumptions C10_wake.
    OnData runs, until that OnData returns) or closed — and from then on reads never block (buffered data, then
    end-of-stream).  [Flush with an empty sendBuf returns nil without a state check, and BufferWriter().WriteBytes
    only buffers: neither sends anything.] *)
-Theorem C10_final_ops : forall cb0 inb nc scr ups sy sched,
-  let s := run sched (init_sy cb0 inb nc scr ups sy) in
+Theorem C10_final_ops : forall cb0 inb nc scr ups sy nds pks sched,
+  let s := run sched (init_rd cb0 inb nc scr ups sy nds pks) in
   (forall i u, nth_error (users s) i = Some u ->
      Forall (fun r => snd r = true -> fst r = false) (ures u) /\ (forall m, upc u <> UPut m true)) /\
   (0 < nret s -> st s <> c_streamOpened /\ flush_res s = RErrStreamClosed /\ read_res s <> RBlocked).
@@ -84,8 +107,8 @@ Print Assumptions C10_final_ops.
 
 (* peer side: once a close notification has been taken from the inbox and its CAS executed, Flush fails and
    reads return the buffered data and then end-of-stream *)
-Theorem C10_peer : forall cb0 inb nc scr ups sy sched,
-  let s := run sched (init_sy cb0 inb nc scr ups sy) in
+Theorem C10_peer : forall cb0 inb nc scr ups sy nds pks sched,
+  let s := run sched (init_rd cb0 inb nc scr ups sy nds pks) in
   ncl (processed s) > 0 -> epc s <> EHalf ->
   st s <> c_streamOpened /\ flush_res s = RErrStreamClosed /\ read_res s <> RBlocked /\
   (recv s ++ concat (pending s) = [] -> read_res s = REndOfStream).
@@ -93,9 +116,9 @@ Proof. exact peer. Qed.
 Print Assumptions C10_peer.
 
 (* ---------- the full statement: now a theorem ---------- *)
-Theorem C10_full : forall cb0 inb nc scr ups sy sched,
+Theorem C10_full : forall cb0 inb nc scr ups sy nds pks sched,
   cb_stable cb0 sched ->
-  let s := run sched (init_sy cb0 inb nc scr ups sy) in quiesc s -> close_returned s -> closed_ok s.
+  let s := run sched (init_rd cb0 inb nc scr ups sy nds pks) in quiesc s -> close_returned s -> closed_ok s.
 Proof. exact full. Qed.
 Print Assumptions C10_full.
 
@@ -105,8 +128,8 @@ Print Assumptions C10_full.
    whose table lookup preceded close()'s clean and whose add followed it was moved into recvBuf by a goroutine that
    close()'s Wait had missed, and nothing recycled it.  Since the repair the callback goroutine, after its OnData loop
    and before it clears callbackInProcess, sweeps pendingData and recvBuf if it finds the state closed. *)
-Theorem C10_no_residue : forall cb0 inb nc scr ups sy sched,
-  let s := run sched (init_sy cb0 inb nc scr ups sy) in
+Theorem C10_no_residue : forall cb0 inb nc scr ups sy nds pks sched,
+  let s := run sched (init_rd cb0 inb nc scr ups sy nds pks) in
   st s = c_streamClosed -> epc s = EIdle -> (spc s = SIdle \/ spc s = SDone) ->
   (forall i g, nth_error (gors s) i = Some g -> g = GExit) ->
   (forall i c, nth_error (clos s) i = Some c -> c = KRet \/ c = KStart) ->
@@ -115,7 +138,7 @@ Proof. exact no_residue. Qed.
 Print Assumptions C10_no_residue.
 (* the former witness schedule (the goroutine that outlived the clean now sweeps) *)
 Example C10_regress_late_arrival_residue :
-  let s := run ([WClo 0; WClo 0] ++ repeat WEv 5 ++ [WClo 0; WClo 0; WClo 0] ++ [WEv; WEv; WEv] ++ repeat (WClo 0) 5 ++ [WEv] ++
+  let s := run ([WClo 0; WClo 0] ++ repeat WEv 6 ++ [WClo 0; WClo 0; WClo 0] ++ [WEv; WEv; WEv] ++ repeat (WClo 0) 5 ++ [WEv] ++
                 repeat (WGor 0) 12 ++ [WEv; WEv; WEv])
                (init true [EData [1]; EData [2]] 1 [] []) in
   st s = c_streamClosed /\ intable s = false /\ epc s = EIdle /\ gors s = [GExit] /\ pending s = [] /\ recv s = [].
@@ -133,14 +156,14 @@ Proof. exact propagates. Qed.
 Print Assumptions C10_propagates.
 
 (* ---------- the hypothesis cb_stable is forced ---------- *)
-Definition C10_full_any_setcallbacks : Prop := forall cb0 inb nc scr ups sy sched,
-  let s := run sched (init_sy cb0 inb nc scr ups sy) in quiesc s -> close_returned s -> closed_ok s.
+Definition C10_full_any_setcallbacks : Prop := forall cb0 inb nc scr ups sy nds pks sched,
+  let s := run sched (init_rd cb0 inb nc scr ups sy nds pks) in quiesc s -> close_returned s -> closed_ok s.
 (* Close() reads "no callbacks"; SetCallbacks installs them and takes the flag; Close() reads the flag = 1,
    half-closes and returns; the goroutine finds callbackCloseState = 0 and never closes *)
 Theorem C10_setcallbacks_race_refuted : ~ C10_full_any_setcallbacks.
 Proof.
   intros H.
-  specialize (H false [] 1%nat [] [] [] ([WClo 0; WSet; WSet; WClo 0; WClo 0; WSet; WSet] ++ repeat (WGor 0) 8)).
+  specialize (H false [] 1%nat [] [] [] [] [] ([WClo 0; WSet; WSet; WClo 0; WClo 0; WSet; WSet] ++ repeat (WGor 0) 8)).
   match type of H with let s := ?r in _ => set (s := r) in H end. cbv zeta in H.
   assert (Hq : quiesc s).
   { vm_compute. repeat split; auto.
@@ -154,7 +177,7 @@ Print Assumptions C10_setcallbacks_race_refuted.
 (* ---------- regression examples: the former refutation witnesses now end well ---------- *)
 (* (1) one message, OnData consumes it and calls Close() (formerly C10_refuted) *)
 Example C10_regress_close_inside_OnData :
-  let s := run (repeat WEv 7 ++ repeat (WGor 0) 40) (init true [EData [1]] 0 [(1%nat, 1%nat)] []) in
+  let s := run (repeat WEv 8 ++ repeat (WGor 0) 40) (init true [EData [1]] 0 [(1%nat, 1%nat)] []) in
   khalf s = true /\ st s = c_streamClosed /\ intable s = false /\ nlocal s = 1 /\ nremote s = 0 /\ out s = [EClose] /\
   gors s = [GExit].
 Proof. vm_compute. repeat split. Qed.
@@ -169,7 +192,7 @@ Proof. vm_compute. repeat split. Qed.
 (* non-vacuity: synchronous mode, A flushes [5;6] and closes, B handles both events: A is closed, out of the
    table, reported once, told B; B is half-closed, still has the data to read, cannot flush *)
 Example C10_example_run :
-  let w := wrun (repeat (SA, WUser 0%nat) 4 ++ repeat (SA, WClo 0%nat) 10 ++ repeat (SB, WEv) 8)
+  let w := wrun (repeat (SA, WUser 0%nat) 4 ++ repeat (SA, WClo 0%nat) 10 ++ repeat (SB, WEv) 10)
                 (winit false false 1 0 [] [] [[[5; 6]]] []) in
   quiesc (wa w) /\ close_returned (wa w) /\
   st (wa w) = c_streamClosed /\ intable (wa w) = false /\ nlocal (wa w) = 1 /\ out (wa w) = [EData [5; 6]; EClose] /\
@@ -184,12 +207,12 @@ Qed.
 (* (3) Close() called twice inside the same OnData: the second call finds the stream already locally half-closed,
    its CAS fails and it returns; the goroutine's exit path completes the close *)
 Example C10_regress_repeated_close_inside_OnData :
-  let s := run (repeat WEv 7 ++ repeat (WGor 0) 50) (init true [EData [1]] 0 [(1%nat, 2%nat)] []) in
+  let s := run (repeat WEv 8 ++ repeat (WGor 0) 50) (init true [EData [1]] 0 [(1%nat, 2%nat)] []) in
   st s = c_streamClosed /\ intable s = false /\ nlocal s = 1 /\ nremote s = 0 /\ out s = [EClose] /\ gors s = [GExit].
 Proof. vm_compute. repeat split. Qed.
 (* (4) Close() inside OnData after the peer's close notification was handled while that OnData was running *)
 Example C10_regress_close_inside_OnData_after_peer_close :
-  let s := run (repeat WEv 7 ++ repeat (WGor 0) 3 ++ repeat WEv 3 ++ repeat (WGor 0) 50)
+  let s := run (repeat WEv 8 ++ repeat (WGor 0) 3 ++ repeat WEv 3 ++ repeat (WGor 0) 50)
                (init true [EData [1]; EClose] 0 [(1%nat, 1%nat)] []) in
   st s = c_streamClosed /\ intable s = false /\ nlocal s = 0 /\ nremote s = 1 /\ out s = [] /\ gors s = [GExit].
 Proof. vm_compute. repeat split. Qed.
@@ -203,7 +226,7 @@ Proof. vm_compute. repeat split. Qed.
    stays in the table, OnLocalClose is never called and the peer is never told. *)
 Definition seeded_fallthrough (s : est) : est := setg 0 (GCbClose CLd 0) s.
 Example C10_seeded_close_fallthrough_self_deadlock :
-  let s1 := run (repeat WEv 7 ++ repeat (WGor 0) 9) (init true [EData [1]] 0 [(1%nat, 2%nat)] []) in
+  let s1 := run (repeat WEv 8 ++ repeat (WGor 0) 9) (init true [EData [1]] 0 [(1%nat, 2%nat)] []) in
   nth_error (gors s1) 0 = Some (GCbClose KHalf 0) /\ st s1 = v_streamLocalHalfClosed /\
   let s2 := run (repeat (WGor 0) 100) (seeded_fallthrough s1) in
   nth_error (gors s2) 0 = Some (GCbClose (CWait v_streamLocalHalfClosed) 0) /\ wg s2 = 1 /\
@@ -215,7 +238,7 @@ Proof. vm_compute. repeat split. Qed.
    user thread 0 running inside that OnData — flushes once more before OnData returns: the Flush fails, nothing
    but the close element is ever sent; a Flush begun BEFORE the Close (user thread 1) was sent *)
 Example C10_flush_after_close_inside_OnData :
-  let s := run (repeat (WUser 1) 4 ++ repeat WEv 7 ++ repeat (WGor 0) 7 ++ repeat (WUser 0) 4 ++ repeat (WGor 0) 40)
+  let s := run (repeat (WUser 1) 4 ++ repeat WEv 8 ++ repeat (WGor 0) 7 ++ repeat (WUser 0) 4 ++ repeat (WGor 0) 40)
                (init true [EData [1]] 0 [(1%nat, 1%nat)] [[[9]]; [[8]]]) in
   map ures (users s) = [[(false, true)]; [(true, false)]] /\ out s = [EData [8]; EClose] /\
   st s = c_streamClosed /\ nret s = 1.
